@@ -129,13 +129,29 @@ CheckedApply(o, pol, sc) ==
                /\ wres' = OkItems(Filter(res'.items, LAMBDA x : pol[x]["Read"] = PolOk))
           ELSE cons' = cs /\ wres' = res'
 
+\* A backend whose repository listing fails after delivering k items (it may hand a further
+\* name over together with the error: the Seq contract only says that the item that comes with
+\* an error is the last).  What was delivered before is checked and filtered as usual; the
+\* listing ends with the backend's error; the name that came with the error is not an item.
+Min(a, b) == IF a < b THEN a ELSE b
+CheckedListFail(o, pol, sc, k) ==
+  /\ o.op = "ListRepos" /\ ~Rejected(o, pol)
+  /\ Apply(o) /\ res'.ok            \* res: what the backend would have listed in full
+  /\ LET got == SubSeq(res'.items, 1, Min(k, Len(res'.items))) IN
+     /\ cons' = StaticCons(o) \o [i \in 1..Len(got) |-> Q(got[i], "Read")]
+     /\ wres' = [ErrR("FAIL") EXCEPT !.items = Filter(got, LAMBDA x : pol[x]["Read"] = PolOk)]
+  /\ wpe' = None /\ bcalls' = BCallsOf(o) /\ bscopes' = <<sc>>
+\* the name delivered together with an error is nothing the policy rejects
+ErrItemOK(name, pol) == name = "" \/ (name \in DOMAIN pol /\ pol[name]["Read"] = PolOk)
+
 \* ---- C12 properties, as predicates on one step that was made for call o under pol
 BackendUnchanged == UNCHANGED state
 ContentUnchanged == UNCHANGED <<imm, blobs, mans, tags, ups>>
 RejectedNeverReachesBackendStep(o, pol) ==
   Rejected(o, pol) => BackendUnchanged /\ bcalls' = <<>>
 ListingFilteredStep(o, pol) ==
-  (o.op = "ListRepos" /\ wres'.ok) => \A i \in 1..Len(wres'.items) : pol[wres'.items[i]]["Read"] = PolOk
+  \* (also for a listing that ends in an error: what it delivered before)
+  o.op = "ListRepos" => \A i \in 1..Len(wres'.items) : pol[wres'.items[i]]["Read"] = PolOk
 ErrorIsPolicyErrorStep(o, pol) ==
   /\ Rejected(o, pol) => /\ ~wres'.ok /\ wpe' = RejectId(o, pol) /\ wres'.code = PolCode(RejectId(o, pol))
                          /\ cons'[Len(cons')] = StaticCons(o)[FirstFail(StaticCons(o), pol)]
